@@ -86,7 +86,7 @@ def run(
     seed=None,
     env=None,
     timeout=3600,
-    coverage=True,
+    coverage=False,
     extra=(),
     spec_dir=SPEC_DIR,
     keep=("INIT", "EDGE", "TRACE", "CASE", "WIT"),
